@@ -309,7 +309,7 @@ def _is_construct_factory(x: Exc):
 
 def run(repo: Repo) -> Result:
     res = Result(PID)
-    res.rules = ["C02-ESCAPE", "C02-PARSE", "C02-FUNNEL"]
+    res.rules = ["C02-ESCAPE", "C02-PARSE", "C02-FUNNEL", "C02-RECURSION"]
     res.explanation = (
         "exception-escape analysis: per (function, parameter-kind context) the non-Liquid exception classes that may leave it — "
         "closed primitive table x kind inference, minus enclosing handlers (hierarchy aware), propagated over the resolved call graph "
@@ -384,6 +384,29 @@ def run(repo: Repo) -> Result:
     res.ob(ld.qual)
     if not any(callee_name(c) == "from_string" for c in calls(ld.node)):
         res.add("C02-PARSE", ld.qual, "via-from_string", "BaseLoader.load must parse through env.from_string (the conversion funnel)", ld.file, ld.line)
+
+    # ---- C02-RECURSION ---------------------------------------------------------------------
+    # RecursionError is one of the classes the statement names.  At parse time from_string's
+    # catch-all converts it (C02-PARSE); at render time nothing does, so it must not be raised:
+    # the render-side depth rules of C09 (the two ContextDepthError guards, `copy_depth + 1` on
+    # every context copy builds, every run-time-found block rendered under a guard, the frame
+    # budget) are obligations of this property as well.  Same rule code, re-keyed.
+    from . import c09 as _c09
+
+    r9 = _c09.run(repo)
+    n9 = 0
+    for f9 in r9.findings:
+        render_side = (
+            (f9.rule == "C09-GUARDS" and f9.construct.startswith("liquid.context.RenderContext"))
+            or (f9.rule == "C09-CYCLES" and f9.detail.startswith(("unguarded-dynamic-render", "extend")))
+            or (f9.rule == "C09-CYCLES" and f9.detail.startswith("unguarded:") and not any(_c09._is_parse_time(g) for g in repo.all_functions() if g.qual == f9.construct))
+            or f9.rule == "C09-BUDGET"
+        )
+        if render_side:
+            n9 += 1
+            res.add("C02-RECURSION", f9.construct, f"{f9.rule}:{f9.detail}", f"RecursionError can reach the caller of render: {f9.message}", f9.file, f9.line)
+    res.ob("recursion:render-depth-rules", max(int(r9.stats.get("dynamic_render_calls", 0)) + 8, 1))
+    res.stats["render_depth_findings"] = n9
 
     # ---- C02-ESCAPE ------------------------------------------------------------------------
     x = Exc(repo)
